@@ -99,7 +99,7 @@ def compare_before(resA, resB, Y, what):
     a, b = canon.result_arrays(resA), canon.result_arrays(resB)
     a = {k: (v[..., :n]) for k, v in a.items()}
     b = {k: (v[..., :n]) for k, v in b.items()}
-    d = canon.compare_results(a, b, rtol=1e-12)
+    d = canon.compare_results(a, b, rtol=1e-12, pop_scale=True)
     if d is not None:
         k, i, x, y = d
         raise Violation(ID, "%s/%s" % (what, k[0] if isinstance(k, tuple) else k), "%s differs before the intervention year %r at index %r (t=%r): with intervention %r, without %r" % (k, Y, i, tA[i] if isinstance(i, int) else None, x, y))
